@@ -43,14 +43,27 @@ ASSUMPTIONS = [
     "third-party decoders are total oracles of the model and are only exercised under catch_unwind: blsttc "
     "PublicKey::from_bytes, ring PBKDF2 + ChaCha20-Poly1305 opening, Multiaddr::from_str, PeerId::from_str, "
     "serde_json / rmp-serde decoding of CacheData, NodeRegistry and RecordHeader; the `hex` crate is modelled in full",
-    "the harness runs the debug profile (overflow checks on); the release build's wrap-around is the second "
-    "instance of the arithmetic primitives in the model (`arith_mode`), used in the *_unfixed_refuted lemmas",
+    "quick tier: the harness runs the debug profile (overflow checks on). Thorough tier: the arithmetic-sensitive families "
+    "(ports, increment_port_option, cache files / failure_rate, amounts, length checks) run a second time through the "
+    "harness built in the release profile (overflow-checks = false, debug-assertions = false) and are compared with the "
+    "model again; the wrapping instance of the arithmetic primitives (`arith_mode` Release) is what the *_unfixed_refuted "
+    "lemmas state and what `C17_UNFIXED=1` compares a tree without the repairs with",
     "ant-cli is a binary crate: wallet/encryption.rs and wallet/error.rs are compiled into the harness from "
     "the repository's files with #[path]",
     "cache-file times are written relative to the harness clock with a 5 s guard band around `now` and the "
     "expiry boundary",
 ]
 UNFIXED = bool(os.environ.get("C17_UNFIXED"))   # validate the *_unfixed model against a tree without the fixes
+RELEASE = False      # set while the cases of the release-profile (wrapping arithmetic) harness are judged
+RELEASE_OPS = ("port_parse", "port_validate", "incr_port", "load_cache", "amount_from_str", "header_from_record",
+               "reg_from_hex", "scratch_from_hex", "str_to_addr", "datamap_from_hex", "registry_load")
+
+
+def variant():
+    """the transcription the arithmetic-sensitive agree_* terms compare with"""
+    if not UNFIXED:
+        return "Fixed"
+    return "(Unfixed Release)" if RELEASE else "(Unfixed Debug)"
 
 U16 = 65536
 U32 = 2 ** 32
@@ -589,12 +602,15 @@ def oracle(c, o):
         if op == "port_validate" and got is not None:
             n = 1 if got[0] == "single" else got[2] - got[1] + 1
             if o["v"] != (c["count"] == n):
-                bad("port-validate", "validate(%d) = %s for %d ports" % (c["count"], o["v"], n))
+                wrapped = o["v"] and c["count"] == n % U16
+                bad("wrapped-count" if wrapped else "port-validate",
+                    "validate(%d) = %s for %d ports%s" % (c["count"], o["v"], n, " (the 16-bit wrap of the count was accepted)" if wrapped else ""))
     elif op == "incr_port":
         p = c["p"]
         want = None if p is None or p + 1 >= U16 else p + 1
         if o["r"] != want:
-            bad("incr-wrap" if p == 65535 else "incr-value", "increment_port_option(%s) = %s" % (p, o["r"]))
+            bad("incr-wrap" if p == 65535 else "incr-value", "increment_port_option(%s) = %s%s" % (
+                p, o["r"], " (wrapped to port 0 instead of reporting that there is no next port)" if o["r"] == 0 else ""))
     elif op == "amount_from_str":
         s = text_of(c)
         m = GRAMMAR.fullmatch(s)
@@ -733,12 +749,12 @@ def model_term(c, o):
         return t
     if op == "port_validate":
         if "panic" in o:
-            return "agree_port_validate %s %s %s 2" % (uf, cstr(text_of(c)), cN(c["count"]))
+            return "agree_port_validate %s %s %s 2" % (variant(), cstr(text_of(c)), cN(c["count"]))
         if o["r"] == "err":
             return "agree_port_parse %s 2 0 0" % cstr(text_of(c))
-        return "agree_port_validate %s %s %s %s" % (uf, cstr(text_of(c)), cN(c["count"]), cN(0 if o["v"] else 1))
+        return "agree_port_validate %s %s %s %s" % (variant(), cstr(text_of(c)), cN(c["count"]), cN(0 if o["v"] else 1))
     if op == "incr_port":
-        return "agree_incr %s %s %s %s" % (uf, copt(c["p"], cN), cN(k if "panic" in o else 0), copt(o.get("r"), cN))
+        return "agree_incr %s %s %s %s" % (variant(), copt(c["p"], cN), cN(k if "panic" in o else 0), copt(o.get("r"), cN))
     if op == "amount_from_str":
         if "panic" in o:
             return "false"
@@ -755,13 +771,13 @@ def model_term(c, o):
                 # now_secs is unknown after a panic; any clock inside the guard band gives the same answer
                 now_secs = 2 * 10 ** 9
                 return "agree_load %s %s %s true (Some %s) 2 []" % (
-                    uf, cfg, cN(now_secs * 10 ** 9 + 10 ** 9), ccache(c["data"], now_secs, "off", "nanos"))
+                    variant(), cfg, cN(now_secs * 10 ** 9 + 10 ** 9), ccache(c["data"], now_secs, "off", "nanos"))
             now_secs = o["now_secs"]
             impl = ccache(o.get("peers", []), now_secs, "ls_off", "ls_nanos")
             return "agree_load %s %s %s true (Some %s) %s %s" % (
-                uf, cfg, cN(now_secs * 10 ** 9 + 10 ** 9), ccache(c["data"], now_secs, "off", "nanos"), cN(k), impl)
+                variant(), cfg, cN(now_secs * 10 ** 9 + 10 ** 9), ccache(c["data"], now_secs, "off", "nanos"), cN(k), impl)
         if c.get("fam") == "absent":
-            return "agree_load false %s 0 false None %s []" % (cfg, cN(k))
+            return "agree_load Fixed %s 0 false None %s []" % (cfg, cN(k))
         return None     # malformed stream: whether serde accepts it is the oracle's business
     if op == "registry_load":
         if "panic" in o:
@@ -804,7 +820,7 @@ def show(c, o):
 def nontrivial(c, o):
     n = len(c.get("bytes", c.get("content") or c.get("text") or []))
     lc = n if n < 8 else (8 + n // 16 if n < 200 else 30)
-    return (c["op"], "panic" if "panic" in o else str(o.get("r", o.get("code", o.get("back")))), lc, c.get("fam", ""),
+    return (c["op"], c.get("profile", ""), "panic" if "panic" in o else str(o.get("r", o.get("code", o.get("back")))), lc, c.get("fam", ""),
             str(o.get("code", "")), str(o.get("v", "")))
 
 
@@ -825,9 +841,50 @@ def run(ctx):
         outs = ctx.run_harness(binary, [{"op": "scratch_roundtrip", "seed": i} for i in range(6)]) or []
         valid_pks = [o["pk"] for o in outs if o and "pk" in o]
     cases = ctx.corpus() + ([] if ctx.replay else gen(ctx, valid_pks))
-    pipeline_retry(ctx, "props/C17.v", cases, binary, oracle, model_term, IMPORTS, nontrivial=nontrivial, show=show, shard_size=120,
-                 relation="each repository parser == its transcription in model/Parsers.v / BootCache.v (outcome Ok/Err/Panic, value, error kind)")
+    dbg = [c for c in cases if c.get("profile") != "release"]
+    rel = [c for c in cases if c.get("profile") == "release"]
+    if ctx.tier == "thorough" and not ctx.replay:
+        # the overflow-sensitive families once more, for the harness built with the arithmetic of a shipped build
+        rel += [dict(c, profile="release", kind="release/" + c["op"]) for c in dbg if c["op"] in RELEASE_OPS]
+    pipeline_retry(ctx, "props/C17.v", dbg, binary, oracle, model_term, IMPORTS, nontrivial=nontrivial, show=show, shard_size=120,
+                   relation="each repository parser == its transcription in model/Parsers.v / BootCache.v (outcome Ok/Err/Panic, value, error kind)")
+    if rel:
+        global RELEASE
+        rbin = cargo_build_release(ctx, "c17")
+        RELEASE = True
+        try:
+            pipeline_retry(ctx, "props/C17.v", rel, rbin, oracle_release, model_term, IMPORTS, nontrivial=nontrivial, show=show,
+                           shard_size=120,
+                           relation="release profile (overflow checks off): each arithmetic-sensitive parser == the model "
+                                    "(the repaired code has no overflowing operation, so the same transcription; with C17_UNFIXED "
+                                    "the wrapping instance `Unfixed Release`)")
+        finally:
+            RELEASE = False
 
+
+def oracle_release(c, o):
+    """the same statement of the property; in a build without overflow checks the typical failure is not a panic but a
+    silently wrapped value accepted where the property demands an error (classes wrapped-count, incr-wrap)"""
+    return [(cls, "[release profile, overflow checks off] " + d) for cls, d in oracle(c, o)]
+
+
+def cargo_build_release(ctx, crate, timeout=3000):
+    """harness crate in the release profile of harness/Cargo.toml (overflow-checks = false, debug-assertions = false),
+    same target dir, same lock and environment as Ctx.cargo_build"""
+    from vpc import core
+    env = dict(os.environ)
+    env["CARGO_NET_OFFLINE"] = "true"
+    env["CARGO_TARGET_DIR"] = core.TARGET
+    env["RUSTFLAGS"] = "--cfg %s -Awarnings" % core.GUARD
+    env.setdefault("CARGO_INCREMENTAL", "0")
+    with core.Lock("cargo"):
+        rc, out = core.sh("timeout %d cargo build --offline --release -p %s 2>&1" % (timeout, crate),
+                          cwd=core.HARNESS, env=env, timeout=timeout + 30)
+    if rc != 0:
+        ctx.tie_break("harness-build", crate + " (release)",
+                      "the harness no longer builds in the release profile:\n" + out[-4000:])
+        return None
+    return os.path.join(core.TARGET, "release", crate)
 
 
 def pipeline_retry(ctx, target, *args, **kw):
